@@ -143,14 +143,14 @@ def ob_fastq(tier):
     maxn = 3 if tier == "quick" else 4
     lens_list = [(a, b) for a in range(1, maxn + 1) for b in range(1, maxn + 1)] if tier == "thorough" else \
         [(1, 1), (2, 1), (1, 2), (2, 2), (3, 2), (2, 3), (3, 3)]
-    for offset_name, offset, hi in (("Sanger", 33, 93), ("Illumina-1.3", 64, 62)):
+    for offset_name, offset, lo, hi in (("Sanger", 33, 0, 93), ("Illumina-1.3", 64, -31, 62)):      # characters '!' .. '~'
         for cpl in (None, 1, 2, 3):
             for lens in lens_list:
                 for edits in ([], [("set", 0)], [("del", 0)]):
                     if edits and (tier == "quick" and (lens not in ((2, 2), (3, 2)) or cpl not in (None, 2))):
                         continue
                     vs = [[z3.Int(f"s{k}_{i}") for i in range(n)] for k, n in enumerate(lens)]
-                    base = [z3.And(v >= 0, v <= hi) for row in vs for v in row]
+                    base = [z3.And(v >= lo, v <= hi) for row in vs for v in row]
                     scores = [[SInt(v) for v in row] for row in vs]
 
                     def run(lens=lens, cpl=cpl, offset_name=offset_name, scores=scores, edits=edits):
